@@ -25,11 +25,12 @@ pub(crate) fn balance_groups<T>(
     price_lookup_ctx: &PriceLookupCtx<'_>,
     ras: &T,
     settings: &Settings,
-) -> Vec<Balance>
+) -> Result<Vec<Balance>, tackler::Error>
 where
     T: BalanceSelector + ?Sized,
 {
-    txns.iter()
+    let balances = txns
+        .iter()
         .map(|txn| (group_by_op(txn), txn))
         // group by key, not by adjacency: the key is not monotone in the instant
         // when the report zone's clock falls back across a period boundary
@@ -45,11 +46,14 @@ where
                 ras,
                 settings,
             )
-            .expect("Logic error with Balance Group: inner balance failed")
         })
+        .collect::<Result<Vec<_>, tackler::Error>>()?;
+
+    Ok(balances
+        .into_iter()
         .filter(|bal| !bal.is_empty())
         .sorted_by_key(|bal| bal.title.clone())
-        .collect()
+        .collect())
 }
 
 pub(crate) fn register_engine<'a, W, T>(
@@ -78,8 +82,12 @@ where
     // (`filt_postings.sort()` in this function) - this will cause that aaa has bigger
     // running total value than ccc, if postings are not sorted before the running total calculation
     for txn in txns {
-        let register_postings: Vec<_> = price_lookup_ctx
+        let converted_postings = price_lookup_ctx
             .convert_prices(txn)
+            .collect::<Result<Vec<_>, tackler::Error>>()?;
+
+        let register_postings: Vec<_> = converted_postings
+            .into_iter()
             .zip(&txn.posts)
             // note-1
             .sorted_by(|a, b| Ord::cmp(&a.1.acctn, &b.1.acctn))
